@@ -33,6 +33,7 @@ func (d *ReadOnlyDB) NewIteratorWithPrefix(prefix []byte) iterator.Iterator {
 type roBatch struct{}
 
 func (b *roBatch) Put(key, value []byte) error { return errReadOnly }
+func (b *roBatch) Delete(key []byte) error     { return errReadOnly }
 func (b *roBatch) Write() error                { return errReadOnly }
 func (b *roBatch) ValueSize() int              { return 0 }
 func (b *roBatch) Reset()                      {}
